@@ -246,6 +246,45 @@ fn case_sensitive_labels(rep: &Report) {
     }
 }
 
+/// names that differ only in case stay different names wherever they occur: labels next to macro parameters,
+/// data labels next to code labels, procedures
+fn case_sensitive_names(rep: &Report) {
+    // (source, expected code lines)
+    let cases: Vec<(&str, Vec<&str>)> = vec![
+        ("TOTAL: dw 1\nother: dw 2\nmacro ld(total) -> mov ax,word total mov bx,word TOTAL <-\nstart:\nld(other)\n", vec!["mov ax,word other", "mov bx,word TOTAL"]),
+        ("macro pr(n,N) -> mov cx,n mov dx,N <-\nstart:\npr(3,4)\n", vec!["mov cx,3", "mov dx,4"]),
+        ("macro jm(done) -> jmp done jmp Done <-\nstart:\nDone:\nstc\nfin:\njm(fin)\n", vec!["stc", "jmp fin", "jmp Done"]),
+        ("val: db 1\nVAL: db 2\nVal: db 3\nstart:\nmov al,byte val\nmov bl,byte VAL\nmov cl,byte Val\n", vec!["mov al,byte val", "mov bl,byte VAL", "mov cl,byte Val"]),
+        ("def f { stc }\ndef F { clc }\nstart:\ncall f\ncall F\n", vec!["stc", "ret", "clc", "ret", "call f", "call F"]),
+    ];
+    for (i, (src, want)) in cases.iter().enumerate() {
+        rep.eval(1);
+        rep.distinct_str(&format!("name-case|{}", i));
+        let norm = |l: &str| l.split_whitespace().collect::<Vec<_>>().join(" ").replace(" ,", ",").replace(", ", ",");
+        match assemble(src) {
+            Ok(a) => {
+                let got: Vec<String> = a.code.iter().map(|l| norm(l)).collect();
+                let exp: Vec<String> = want.iter().map(|l| norm(l)).collect();
+                let offs_ok = i != 3 || (a.labels.get("val").map(|x| x.1) == Some(0) && a.labels.get("VAL").map(|x| x.1) == Some(1) && a.labels.get("Val").map(|x| x.1) == Some(2));
+                if got != exp || !offs_ok {
+                    rep.fail(Failure {
+                        sig: "sem:name-case".into(),
+                        what: "C11: names that differ only in case (label vs macro parameter, parameters, data labels, procedures) are not kept distinct".into(),
+                        witness: format!("{{\"kind\": \"src\", \"source\": {}, \"expected\": {}, \"emitted\": {}}}", json_str(src), json_str(&format!("{:?}", exp)), json_str(&format!("{:?}", got))),
+                        core_item: Some(format!("name-case{}", i)),
+                    });
+                }
+            }
+            Err(e) => rep.fail(Failure {
+                sig: "sem:name-case".into(),
+                what: "C11: a program using names that differ only in case is rejected".into(),
+                witness: format!("{{\"kind\": \"src\", \"source\": {}, \"error\": {}}}", json_str(src), json_str(&format!("{:?}", e))),
+                core_item: Some(format!("name-case-rejected{}", i)),
+            }),
+        }
+    }
+}
+
 /// the comment layer lives in the binary: its hook trace must show the same lines as the in-process replica
 fn cli_comments(rep: &Report, n: usize, seed: u64) {
     par_for(n, 1, |i| {
@@ -360,6 +399,7 @@ fn offset_spelling(rep: &Report, n: usize, seed: u64) {
 
 pub fn run(rep: &Report) {
     case_sensitive_labels(rep);
+    case_sensitive_names(rep);
     offset_spelling(rep, if rep.thorough() { 40_000 } else { 600 }, rep.seed);
     // deterministic core
     par_for(400, 8, |i| {
@@ -379,4 +419,4 @@ pub fn run(rep: &Report) {
     rep.floor("programs assembled", rep.evals(), 5000);
 }
 
-pub const RULE: &str = "random programs rendered from an abstract syntax tree (all instruction classes and operand forms, data definitions, labels, procedures, macros) under random spelling choices. (1) structural: every emitted line is decoded by an independent reader and must denote the same operation with the same operands in the same roles (constants modulo operand width, xchg unordered, synonyms folded), one per source instruction in source order, labels/procedures resolving to the same instruction; data lines likewise. (2) metamorphic: re-renderings varying one dimension at a time (case, radix, white space / line breaks / several instructions per line, ';' comments through the driver's stripping rule) and all together must emit identical code, data and label maps; constants written as OFFSET of a data label (offset taken from the independently computed data image) must emit what the literal number emits, in immediate, displacement, direct-address and print positions. Labels differing only in case stay distinct. The comment layer is cross-checked on the real binary's hook trace. Distinct = instruction class resp. CLI trace length.";
+pub const RULE: &str = "random programs rendered from an abstract syntax tree (all instruction classes and operand forms, data definitions, labels, procedures, macros) under random spelling choices. (1) structural: every emitted line is decoded by an independent reader and must denote the same operation with the same operands in the same roles (constants modulo operand width, xchg unordered, synonyms folded), one per source instruction in source order, labels/procedures resolving to the same instruction; data lines likewise. (2) metamorphic: re-renderings varying one dimension at a time (case, radix, white space / line breaks / several instructions per line, ';' comments through the driver's stripping rule) and all together must emit identical code, data and label maps; constants written as OFFSET of a data label (offset taken from the independently computed data image) must emit what the literal number emits, in immediate, displacement, direct-address and print positions. Labels differing only in case stay distinct, also next to macro parameters, as data labels and as procedure names. The comment layer is cross-checked on the real binary's hook trace. Distinct = instruction class resp. CLI trace length.";
